@@ -58,6 +58,23 @@ def run_shard(desc):
             if i % nshards == si:
                 progs.append({"tree": t, "text": ref.Renderer().render(t)})
                 labels.append(label)
+    elif kind == "divexact":
+        # quotients that are exactly representable must come out exact: a = q * b is computed with big integers
+        from fractions import Fraction
+        from . import c09
+        while len(progs) < n:
+            (mq, sq), (mb, sb) = c09.rand_pair(rnd)
+            if mb == 0:
+                continue
+            a = Fraction(mq, 10 ** sq) * Fraction(mb, 10 ** sb)
+            pa = ref.dec_parts(a)
+            if pa is None:
+                continue
+            t = ["bin", "/", gen.num_lit(*pa), gen.num_lit(mb, sb)]
+            if rnd.random() < 0.3:
+                t = ["stmt", [["bin", "=", ["ref", "x"], gen.num_lit(*pa)], ["bin", "/=", ["ref", "x"], gen.num_lit(mb, sb)], ["ref", "x"]]]
+            progs.append({"tree": t, "text": ref.Renderer().render(t)})
+            labels.append(None)
     elif kind == "long":
         n_ = lambda v: ["num", str(v), 0]
         for _ in range(n):
@@ -147,6 +164,7 @@ def run(rep, tier):
         shards.append(("tree", i, 0, per, "release" if i % 2 else "verifdbg"))
     for i in range(16):
         shards.append(("long", i, 0, 40 if tier == "quick" else 1000, "release" if i % 2 else "verifdbg"))
+        shards.append(("divexact", i, 0, 500 if tier == "quick" else 20000, "release" if i % 2 else "verifdbg"))
     for part in common.pmap(run_shard, shards):
         rep.merge(part)
     rep.extra["exhaustive"] = True
